@@ -210,6 +210,24 @@ pub fn oracle_many(case: &[u8], obs: &mut Obs) -> Result<(), Fail> {
                             let ptr = to_pointer(&paths[i]);
                             let g = sonic_rs::get(s, &ptr).map_err(|e| Fail::new(format!("C11/many/{class}/get-disagrees"), format!("get({}) fails but {api} filled the slot: {e}", path_to_string(&paths[i]))))?;
                             ensure!(g.as_raw_str() == raw, format!("C11/many/{class}/get-disagrees"), "{api} slot {i} differs from get({})", path_to_string(&paths[i]));
+                            // "exactly what get returns": everything a caller can read from the slot, from a copy of
+                            // it and from its owned conversion equals the same reading of get's result (and the
+                            // reference decoding for a string target)
+                            {
+                                use sonic_rs::{JsonValueTrait, OwnedLazyValue};
+                                let copy = lv.clone();
+                                let (a, b, c) = (lv.as_str(), copy.as_str(), g.as_str());
+                                ensure!(a == c && b == c, format!("C11/many/{class}/get-disagrees-decoded"), "{api} slot {i} ({}): as_str = {:?}, as_str of a copy = {:?}, but get(..).as_str() = {:?}; {}", path_to_string(&paths[i]), a, b, c, obs.render.clone().unwrap_or_default());
+                                if let Kind::Str(lit) = &n.kind {
+                                    if lit.scalars_ok {
+                                        ensure!(a == Some(lit.text.as_str()), format!("C11/many/{class}/wrong-decoded-text"), "{api} slot {i} ({}): as_str = {:?}, the literal denotes {:?}; {}", path_to_string(&paths[i]), a, lit.text, obs.render.clone().unwrap_or_default());
+                                    }
+                                }
+                                ensure!(lv.get_type() == g.get_type() && lv.is_str() == g.is_str(), format!("C11/many/{class}/get-disagrees-type"), "{api} slot {i} ({}): type {:?}, get reports {:?}", path_to_string(&paths[i]), lv.get_type(), g.get_type());
+                                let (o1, o2) = (OwnedLazyValue::from(lv.clone()), OwnedLazyValue::from(g.clone()));
+                                let (t1, t2) = (sonic_rs::to_string(&o1).ok(), sonic_rs::to_string(&o2).ok());
+                                ensure!(o1.as_str() == o2.as_str() && t1 == t2, format!("C11/many/{class}/get-disagrees-owned"), "{api} slot {i} ({}): converted into an OwnedLazyValue it reads {:?} / {:?}, get's result {:?} / {:?}; {}", path_to_string(&paths[i]), o1.as_str(), t1, o2.as_str(), t2, obs.render.clone().unwrap_or_default());
+                            }
                         }
                         (Some(lv), None) => fail!(format!("C11/many/{class}/filled-for-missing"), "{api} slot {i} ({}) = {:?} but the path does not resolve; {}", path_to_string(&paths[i]), refjson::trunc(lv.as_raw_str(), 100), obs.render.clone().unwrap_or_default()),
                         (None, Some(_)) => fail!(format!("C11/many/{class}/empty-for-present"), "{api} slot {i} ({}) is empty but the path resolves; {}", path_to_string(&paths[i]), obs.render.clone().unwrap_or_default()),
